@@ -5,12 +5,14 @@ import (
 	"context"
 	"fmt"
 	"io"
+	"math"
 	"math/rand/v2"
 	"os"
 	"os/exec"
 	"regexp"
 	"runtime"
 	"runtime/debug"
+	"sort"
 	"strconv"
 	"strings"
 	"sync"
@@ -30,7 +32,12 @@ func init() {
 		"position class, byte deletion/insertion/replacement from the grammar alphabet, unbalanced brackets, unterminated strings and comments, size-hint "+
 		"edits, CR/LF mixes, multi-byte runes, Unicode spaces, invalid UTF-8), random bytes, nesting to 5000 in-process; each x {strict, non-strict} x "+
 		"{Parse, ParseMessage, ParseHeader}; size hints up to 2^31-1 and nesting to 10^6 in a resource-limited child process; 16 concurrent parser/encoder "+
-		"pairs; distinct = distinct (mode, entry, text); non-trivial = text contains at least one '<'", runC14)
+		"pairs; time: 37 adversarial periodic families (body-less / comment-prefixed / named messages, long and many strict numeric tokens, quote and "+
+		"white-space patterns of the non-strict close-quote scan, wide lists, nesting at and beyond the limit, comments after every item, long and "+
+		"unterminated comments / strings / value items, long tokens, long headers, errors at the end of many lines) plus the 3 periodic texts the model "+
+		"itself rates most expensive among 160 (quick) random ones, each at sizes n, 2n, 4n, 8n (families linear in the model up to 128n), model step "+
+		"count against the proved bound and against the implementation's time and allocated bytes; distinct = distinct (mode, entry, text); "+
+		"non-trivial = text contains at least one '<'", runC14)
 }
 
 // ---------- child process: resource probes that may kill the process ----------
@@ -407,7 +414,7 @@ func runC14(c *Ctx) {
 	}
 	c14Positions(c)
 	c14Concurrency(c, inputs, seqOut, modes[0].entry)
-	c14Timing(c)
+	c14Steps(c)
 }
 
 // c14HintInput: an input with a size hint too large to try in-process: the model predicts the
@@ -675,8 +682,363 @@ func c14ChildProbes(c *Ctx) {
 	}
 }
 
-// c14Timing: shapes with super-linear scans; run on the implementation only, asserted with a very wide margin.
-func c14Timing(c *Ctx) {
+// ---------- time: the cost model (Model/SmlCost.lean, steps_quadratic_bound) against the implementation ----------
+
+// c14Family is a text family pre + unit^k + post of about n bytes.
+type c14Family struct {
+	name   string
+	pre    string
+	unit   string
+	post   string
+	strict bool
+	entry  string // all | one | hdr
+	levels int    // doublings measured: sizes n0, 2·n0, …, 2^(levels-1)·n0
+	modelN int    // largest size (bytes) the driver is asked about (0 = all levels); the model re-parses per nesting level
+}
+
+func (f c14Family) text(n int) string {
+	k := (n - len(f.pre) - len(f.post)) / max(len(f.unit), 1)
+	if k < 1 {
+		k = 1
+	}
+	return f.pre + strings.Repeat(f.unit, k) + f.post
+}
+
+// c14Families: the adversarial shapes. "quadratic" in a comment = the model's step count is quadratic there.
+func c14Families() []c14Family {
+	deep := strings.Repeat("<L", 63) + strings.Repeat(">", 63)
+	return []c14Family{
+		// Parse: every message runs IndexAny / IndexByte('<') / Index("*/") over the whole unread input — quadratic
+		{"many-empty-messages", "", "S1F1.\n", "", false, "all", 4, 0},
+		{"many-empty-messages-strict", "", "S1F1.\n", "", true, "all", 4, 0},
+		{"unterminated-comment-before-each-message", "", "/*:S1F1.\n", "", false, "all", 4, 0},
+		{"unterminated-line-comment-messages", "", "//:S1F1.", "", false, "all", 4, 0},
+		{"named-messages-with-bodies", "", "n:S1F1 W <L <U1 1>>.\n", "", false, "all", 4, 0},
+		// strict ASCII: numStr += string(ch) copies the token for every byte — quadratic in the token
+		{"strict-one-long-numeric-token", "S1F1\n<A ", "1", ">\n.", true, "one", 4, 0},
+		{"strict-long-invalid-utf8-token", "S1F1\n<A ", "\xff", ">\n.", true, "one", 4, 0},
+		{"strict-many-numeric-tokens", "S1F1\n<A ", "65 0x42 ", ">\n.", true, "one", 6, 0},
+		{"strict-long-quoted-run-with-escapes", "S1F1\n<A \"", "ab\\\\c\\>", "\">\n.", true, "one", 6, 0},
+		{"strict-unclosed-quote", "S1F1\n<A \"", "a", "", true, "one", 6, 0},
+		// non-strict ASCII: one checkASCIICloseQuote per byte, each scanning the white space behind a quote
+		{"fast-quote-space-pairs", "S1F1\n<A \"", "\" ", "x\">\n.", false, "one", 6, 0},
+		{"fast-quote-then-long-space-runs", "S1F1\n<A \"", "\"" + strings.Repeat(" ", 200) + "x", "\">\n.", false, "one", 6, 0},
+		{"fast-long-plain-string", "S1F1\n<A \"", "abcdefgh", "\">\n.", false, "one", 6, 0},
+		{"fast-unterminated-string", "S1F1\n<A \"", "abcdefgh", "", false, "one", 6, 0},
+		{"fast-wrong-size-hint", "S1F1\n<A[5] \"", "abcdefgh", "\">\n.", false, "one", 6, 0},
+		// lists
+		{"wide-list-of-empty-lists", "S1F1\n<L ", "<L>", ">.", false, "all", 6, 0},
+		{"wide-list-of-small-items", "S1F1\n<L ", "<U1 1> <A \"x\"> ", ">\n.", false, "all", 6, 0},
+		{"wide-list-of-small-items-strict", "S1F1\n<L ", "<U1 1> <A \"x\" 0x41> ", ">\n.", true, "all", 6, 0},
+		{"nesting-to-the-limit-repeated", "S1F1\n<L ", deep, ">.", false, "all", 6, 8192},
+		{"nesting-beyond-the-limit", "S1F1\n", "<L", ".", false, "all", 6, 8192},
+		{"comment-after-every-item", "S1F1\n<L ", "<U1 1> /* c */ ", ">\n.", false, "all", 6, 0},
+		{"line-comment-after-every-item", "S1F1\n<L ", "<B 1> // c\n", ">\n.", false, "all", 6, 0},
+		{"one-long-comment", "S1F1\n<L /*", "c", "*/>.", false, "all", 6, 0},
+		{"one-long-unterminated-comment-in-list", "S1F1\n<L <L> /*", "c", "", false, "all", 6, 0},
+		// value items, long tokens
+		{"many-numeric-values", "S1F1\n<U2 ", "65535 ", ">.", false, "one", 6, 0},
+		{"many-boolean-values", "S1F1\n<Boolean ", "T f ", ">.", false, "one", 6, 0},
+		{"one-long-numeric-value", "S1F1\n<U8 ", "9", ">.", false, "one", 4, 8192},
+		{"one-long-bad-boolean", "S1F1\n<BOOLEAN ", "t", ">.", false, "one", 6, 0},
+		{"value-item-without-close", "S1F1\n<I4 ", "1 ", "", false, "one", 6, 0},
+		{"long-white-space-everywhere", "S1F1", " \t\r\n", "<L>.", false, "all", 6, 0},
+		// strings in J / W
+		{"many-quotes-in-jis8", "S1F1\n<J \"", "\" ", "\">\n.", false, "one", 6, 0},
+		{"many-gt-in-jis8", "S1F1\n<J \"", "a>", "\">\n.", false, "one", 6, 0},
+		{"unterminated-localized", "S1F1\n<W \"", "ab", "", false, "one", 6, 0},
+		// headers
+		{"long-message-name", "", "n", ":S1F1 W\n<L>.", false, "one", 6, 0},
+		{"header-only-long-tail", "S1F1 W", " x", ".", false, "hdr", 6, 0},
+		{"no-terminator-at-all", "S1F1 W ", "x", "", false, "all", 6, 0},
+		// error reporting: newParseError walks input[:offset]
+		{"error-at-the-end-of-many-lines", "S1F1\n<L ", "<L>\n", "<?>>.", false, "all", 6, 0},
+	}
+}
+
+// allowances per model step (wide: observed values are 0.05-10 ns and 0-7 bytes per step, the highest under load)
+const c14BytesPerStep = 64.0
+
+// c14NsPerStep is a variable only because the race detector (thorough tier) slows every memory access 5-15 x.
+var c14NsPerStep = func() float64 {
+	if raceBuild {
+		return 3000
+	}
+	return 200
+}()
+
+// c14StepsBound: steps_quadratic_bound (Props/C14.lean).
+func c14StepsBound(entry string, n int) float64 {
+	x := float64(n)
+	if entry == "all" {
+		return 19*x*x + 158*x + 66
+	}
+	return 10*x*x + 88*x + 65
+}
+
+func c14ModelSteps(c *Ctx, f c14Family, text string) (float64, bool) {
+	ans := c.Lean.Ask(fmt.Sprintf("sml.steps %s %s - %s", c13B01(f.strict), f.entry, c15HexText(text)))
+	v, err := strconv.ParseUint(ans, 10, 64)
+	if err != nil {
+		return 0, false // "undetermined": the text has a token outside the modelled literal subset
+	}
+	return float64(v), true
+}
+
+type c14Meas struct {
+	n     int
+	ns    float64 // best wall-clock time of one parse
+	alloc float64 // bytes allocated by one parse (runtime.MemStats.TotalAlloc)
+	steps float64 // model step count (0 = not asked)
+	out   string
+}
+
+// c14ParseOnly: the parse alone (no rendering of the result), panics contained.
+func c14ParseOnly(entry string, strict bool, text string) {
+	defer func() { _ = recover() }()
+	p := sml.NewParser(sml.WithParserStrictMode(strict))
+	switch entry {
+	case "all":
+		_, _ = p.Parse(text)
+	case "one":
+		_, _ = p.ParseMessage(text)
+	default:
+		_, _ = p.ParseHeader(text)
+	}
+}
+
+// c14Measure runs the real parser on text: best time of several runs, allocation of one run.
+func c14Measure(f c14Family, text string) (ns float64, alloc float64, out, pmsg string) {
+	out, pmsg = c13SmlOutcome(f.entry, f.strict, text) // warm-up, outcome
+	var m0, m1 runtime.MemStats
+	runtime.GC()
+	runtime.ReadMemStats(&m0)
+	t0 := time.Now()
+	c14ParseOnly(f.entry, f.strict, text)
+	first := time.Since(t0)
+	runtime.ReadMemStats(&m1)
+	alloc = float64(m1.TotalAlloc - m0.TotalAlloc)
+	best := first
+	spent := first
+	for reps := 1; reps < 25 && (reps < 3 || spent < 20*time.Millisecond); reps++ {
+		t0 = time.Now()
+		c14ParseOnly(f.entry, f.strict, text)
+		el := time.Since(t0)
+		spent += el
+		if el < best {
+			best = el
+		}
+		if spent > 3*time.Second {
+			break
+		}
+	}
+	return float64(best.Nanoseconds()), alloc, out, pmsg
+}
+
+func c14Exp(a, b float64, na, nb int) float64 {
+	if a <= 0 || b <= 0 || na == nb {
+		return 0
+	}
+	return math.Log(b/a) / math.Log(float64(nb)/float64(na))
+}
+
+// c14RunFamily measures one family over its doubling sizes and judges the growth.
+//
+//	property        at every size, time <= 5 ms + 10 ns x (steps the proved bound allows); between the smallest and the
+//	                largest size allocation (deterministic) grows at most 6 x (size ratio)^2: what
+//	                steps_quadratic_bound allows, with a wide margin (observation, not proof)
+//	correspondence  the model's step count stays under the proved bound; at every size, time <= 5 ms + 200 ns per model
+//	                step and allocation <= 256 KiB + 64 bytes per model step (observed: 0.05-10 ns, 0-7 bytes), and
+//	                allocation grows at most 3 x as fast as the model's steps: the cost model does not miss a scan or
+//	                a copy the implementation performs
+func c14RunFamily(c *Ctx, f c14Family, n0 int) {
+	var ms []c14Meas
+	for lv := 0; lv < f.levels; lv++ {
+		n := n0 << lv
+		text := f.text(n)
+		m := c14Meas{n: len(text)}
+		var pmsg string
+		m.ns, m.alloc, m.out, pmsg = c14Measure(f, text)
+		c.Count(fmt.Sprintf("steps|%s|%d", f.name, n), strings.Contains(text, "<"))
+		c.Stat("tag:steps-family-size")
+		replay := map[string]any{"family": f.name, "pre": f.pre, "unit": f.unit, "post": f.post, "strict": f.strict, "entry": f.entry, "bytes": len(text)}
+		if m.out == "panic" {
+			c.Violate("property", "parse-panic-"+c14NormPanic(pmsg), fmt.Sprintf("parser panicked on family %s (%d bytes): %s", f.name, len(text), pmsg), replay)
+		}
+		if m.ns > 20e9 {
+			c.Violate("property", "parse-time-superpolynomial", fmt.Sprintf("family %s (%d bytes) took %.1f s", f.name, len(text), m.ns/1e9), replay)
+		}
+		if c.Lean != nil && (f.modelN == 0 || len(text) <= f.modelN) {
+			if st, ok := c14ModelSteps(c, f, text); ok {
+				m.steps = st
+				c.Res.Traces++
+				if st > c14StepsBound(f.entry, len(text)) {
+					c.Violate("correspondence", "model-steps-exceed-proved-bound", fmt.Sprintf("family %s, %d bytes: the model counts %.0f steps, steps_quadratic_bound allows %.0f", f.name, len(text), st, c14StepsBound(f.entry, len(text))), replay)
+				}
+				_, _, mo := c13SmlModelParse(c, f.entry, f.strict, text)
+				if mo != m.out {
+					c.Violate("correspondence", "model-parse-differs", fmt.Sprintf("family %s (%d bytes): parser gives %q, model %q", f.name, len(text), clip(m.out, 200), clip(mo, 200)), replay)
+				}
+			} else {
+				c.Stat("steps-undetermined")
+			}
+		}
+		ms = append(ms, m)
+	}
+	a, b := ms[0], ms[len(ms)-1]
+	sizeRatio := float64(b.n) / float64(a.n)
+	replay := map[string]any{"family": f.name, "pre": f.pre, "unit": f.unit, "post": f.post, "strict": f.strict, "entry": f.entry,
+		"bytes": []int{a.n, b.n}, "ns": []float64{a.ns, b.ns}, "alloc_bytes": []float64{a.alloc, b.alloc}}
+	// what the proved bound allows, with a wide margin.  Time is judged in absolute terms only (5 ms + 10 ns per step
+	// of the bound, at every size): growth RATIOS of wall-clock time are not stable at these sizes (a 1 KiB token is
+	// copied inside the allocator's small-object caches, an 8 KiB one is a page-zeroing large object: x20 per byte).
+	// Allocation is deterministic and judged by its growth.
+	for _, m := range ms {
+		if m.ns > 5e6+c14NsPerStep/20*c14StepsBound(f.entry, m.n) {
+			c.Violate("property", "parse-time-exceeds-quadratic-bound", fmt.Sprintf("family %s: %d bytes take %.3g ms, more than 5 ms + %.0f ns x (the %.3g steps steps_quadratic_bound allows)",
+				f.name, m.n, m.ns/1e6, c14NsPerStep/20, c14StepsBound(f.entry, m.n)), replay)
+		}
+	}
+	if b.alloc > 1<<20 && b.alloc/math.Max(a.alloc, 4096) > 6*sizeRatio*sizeRatio {
+		c.Violate("property", "parse-allocation-superquadratic", fmt.Sprintf("family %s: %d bytes allocate %.0f bytes, %d bytes allocate %.0f", f.name, a.n, a.alloc, b.n, b.alloc), replay)
+	}
+	// against the model: the last size the model was asked about
+	var ma, mb *c14Meas
+	for i := range ms {
+		if ms[i].steps > 0 {
+			if ma == nil {
+				ma = &ms[i]
+			}
+			mb = &ms[i]
+		}
+	}
+	line := fmt.Sprintf("steps family=%s strict=%v entry=%s bytes=%d..%d time-exp=%.2f alloc-exp=%.2f", f.name, f.strict, f.entry, a.n, b.n,
+		c14Exp(a.ns, b.ns, a.n, b.n), c14Exp(math.Max(a.alloc, 1), math.Max(b.alloc, 1), a.n, b.n))
+	if ma != nil {
+		// absolute: time and allocation per model step, at every size the model was asked about
+		worstNs, worstB := 0.0, 0.0
+		for _, m := range ms {
+			if m.steps <= 0 {
+				continue
+			}
+			worstNs = math.Max(worstNs, m.ns/m.steps)
+			worstB = math.Max(worstB, m.alloc/m.steps)
+			rp := map[string]any{"family": f.name, "pre": f.pre, "unit": f.unit, "post": f.post, "strict": f.strict, "entry": f.entry, "bytes": m.n, "ns": m.ns, "alloc_bytes": m.alloc, "model_steps": m.steps}
+			if m.ns > 5e6+c14NsPerStep*m.steps {
+				c.Violate("correspondence", "time-exceeds-model-steps", fmt.Sprintf("family %s, %d bytes: %.3g ms for %.0f model steps (allowed 5 ms + %.0f ns per step): the cost model misses a scan the implementation performs",
+					f.name, m.n, m.ns/1e6, m.steps, c14NsPerStep), rp)
+			}
+			if m.alloc > 1<<18+c14BytesPerStep*m.steps {
+				c.Violate("correspondence", "allocation-exceeds-model-steps", fmt.Sprintf("family %s, %d bytes: %.0f bytes allocated for %.0f model steps (allowed 256 KiB + %.0f bytes per step): the cost model misses a copy the implementation performs",
+					f.name, m.n, m.alloc, m.steps, c14BytesPerStep), rp)
+			}
+		}
+		line += fmt.Sprintf(" ns/step<=%.3g B/step<=%.3g", worstNs, worstB)
+	}
+	if ma != nil && mb != ma {
+		stepRatio := mb.steps / ma.steps
+		mexp := c14Exp(ma.steps, mb.steps, ma.n, mb.n)
+		line += fmt.Sprintf(" model-exp=%.2f model-steps=%.0f..%.0f (bound %.0f)", mexp, ma.steps, mb.steps, c14StepsBound(f.entry, mb.n))
+		if mexp > 1.5 {
+			c.Stat("steps-families-quadratic-in-the-model")
+		} else {
+			c.Stat("steps-families-linear-in-the-model")
+		}
+		// growth (deterministic proxy): allocation against the model's steps, extrapolated with the model's own
+		// exponent where the model was not asked about the largest size
+		pred := stepRatio * math.Pow(float64(b.n)/float64(mb.n), math.Max(mexp, 1)) * math.Pow(float64(ma.n)/float64(a.n), math.Max(mexp, 1))
+		replay["model_steps"] = []float64{ma.steps, mb.steps}
+		if b.alloc > 1<<20 && b.alloc/math.Max(a.alloc, 4096) > 3*pred {
+			c.Violate("correspondence", "allocation-grows-faster-than-model-steps", fmt.Sprintf("family %s: allocation x%.0f (%.0f -> %.0f bytes) where the model's steps grow x%.0f: the cost model misses a copy",
+				f.name, b.alloc/math.Max(a.alloc, 4096), a.alloc, b.alloc, pred), replay)
+		}
+	}
+	// families that are linear in the model: two more doublings on the implementation alone, judged against the
+	// model's steps extrapolated linearly (the driver is not asked: it would take seconds per text).  A re-scan per
+	// item or per message that the model does not have costs seconds here, against an allowance of a few hundred ms.
+	if ma != nil && mb != ma && c14Exp(ma.steps, mb.steps, ma.n, mb.n) < 1.2 && f.levels >= 6 {
+		for lv := f.levels; lv < f.levels+2; lv++ {
+			text := f.text(n0 << lv)
+			ns, alloc, _, _ := c14Measure(f, text)
+			pred := mb.steps * float64(len(text)) / float64(mb.n)
+			c.Count(fmt.Sprintf("steps|%s|%d", f.name, n0<<lv), strings.Contains(text, "<"))
+			c.Stat("tag:steps-family-size-extrapolated")
+			rp := map[string]any{"family": f.name, "pre": f.pre, "unit": f.unit, "post": f.post, "strict": f.strict, "entry": f.entry, "bytes": len(text), "ns": ns, "alloc_bytes": alloc, "model_steps_extrapolated": pred}
+			if ns > 5e6+c14NsPerStep*pred {
+				c.Violate("correspondence", "time-exceeds-model-steps", fmt.Sprintf("family %s, %d bytes: %.3g ms for about %.0f model steps (linear in the model; allowed 5 ms + %.0f ns per step): the cost model misses a scan the implementation performs",
+					f.name, len(text), ns/1e6, pred, c14NsPerStep), rp)
+			}
+			if alloc > 1<<18+c14BytesPerStep*pred {
+				c.Violate("correspondence", "allocation-exceeds-model-steps", fmt.Sprintf("family %s, %d bytes: %.0f bytes allocated for about %.0f model steps (linear in the model; allowed 256 KiB + %.0f bytes per step)",
+					f.name, len(text), alloc, pred, c14BytesPerStep), rp)
+			}
+			line += fmt.Sprintf(" [%d bytes: %.3g ns/step]", len(text), ns/pred)
+		}
+	}
+	c.Note("%s", line)
+}
+
+// c14WorstByModel asks the driver which periodic texts cost the most steps (both modes) and returns the
+// winners as families: the model's own worst cases, then measured on the implementation like the others.
+func c14WorstByModel(c *Ctx) []c14Family {
+	if c.Lean == nil {
+		return nil
+	}
+	r := c.Rng
+	pieces := []string{"S1F1.", "S1F1.\n", "/*", "//", ":", "n:", "<L", "<L>", ">", "<A ", "<A \"", "\"", "\" ", "'", " ", "\n", "1", "12 ", "0x41 ", "\\", "\xff", "\xe6\xbc\xa2",
+		"<U1 1>", "<J \"", "<W \"", "<B ", "<BOOLEAN ", "T ", "[1]", "[", "..", ".", "W", "S1F1 W\n", "*/", "x"}
+	wraps := [][2]string{{"", ""}, {"S1F1\n<L ", ">."}, {"S1F1\n<A ", ">."}, {"S1F1\n<A \"", "\">."}, {"S1F1\n<J \"", "\">."}, {"S1F1\n<U1 ", ">."}, {"S1F1\n", "."}}
+	type cand struct {
+		f     c14Family
+		steps float64
+	}
+	var best []cand
+	n := 1536
+	seen := map[string]bool{}
+	for i := 0; i < c.Pick(160, 600); i++ {
+		unit := ""
+		for k := 1 + r.IntN(3); k > 0; k-- {
+			unit += pieces[r.IntN(len(pieces))]
+		}
+		w := wraps[r.IntN(len(wraps))]
+		f := c14Family{name: "model-worst", pre: w[0], unit: unit, post: w[1], strict: r.IntN(2) == 0, entry: "all", levels: 4}
+		key := fmt.Sprint(f.pre, "|", f.unit, "|", f.post, "|", f.strict)
+		if seen[key] {
+			continue
+		}
+		seen[key] = true
+		text := f.text(n)
+		st, ok := c14ModelSteps(c, f, text)
+		c.Stat("tag:steps-model-search")
+		c.Count("steps-search|"+key, strings.Contains(text, "<"))
+		if !ok {
+			continue
+		}
+		if st > c14StepsBound("all", len(text)) {
+			c.Violate("correspondence", "model-steps-exceed-proved-bound", fmt.Sprintf("%q x k in %q…%q (%d bytes): the model counts %.0f steps, steps_quadratic_bound allows %.0f", unit, w[0], w[1], len(text), st, c14StepsBound("all", len(text))),
+				map[string]any{"pre": f.pre, "unit": f.unit, "post": f.post, "strict": f.strict, "bytes": len(text)})
+		}
+		best = append(best, cand{f, st / float64(len(text)) / float64(len(text))})
+	}
+	sort.Slice(best, func(i, j int) bool { return best[i].steps > best[j].steps })
+	var out []c14Family
+	for i := 0; i < len(best) && i < 3; i++ {
+		f := best[i].f
+		f.name = fmt.Sprintf("model-worst-%d", i+1)
+		c.Note("steps search: #%d by the model: %q x k in %q…%q strict=%v: %.3f steps per byte^2 at %d bytes", i+1, f.unit, f.pre, f.post, f.strict, best[i].steps, n)
+		out = append(out, f)
+	}
+	return out
+}
+
+// c14Steps: the measurement phase for the TIME clause.
+func c14Steps(c *Ctx) {
+	n0 := c.Pick(1024, 2048)
+	fams := append(c14Families(), c14WorstByModel(c)...)
+	for _, f := range fams {
+		c14RunFamily(c, f, n0)
+	}
+	// one large instance of each quadratic shape, implementation only: absolute guard with a very wide margin
 	n := c.Pick(20000, 60000)
 	shapes := map[string]string{
 		"many-empty-messages": strings.Repeat("S1F1.\n", n),
